@@ -488,6 +488,14 @@ def main(pid, tier, seed):
         for t in its:
             if iv[t['tid']][0] != 'ACCEPT':
                 drift.append({'ruleset': gi, 'script': t['script'], 'verdict': list(iv[t['tid']]), 'events': len(t['ev'])})
+    # anti-vacuity: the scripted quits must really have interrupted sessions that were then resumed
+    n_quit = sum(1 for t in traces if any(x['q'] for x in t['sess']))
+    n_resumed = sum(1 for t in traces if len(t['sess']) >= 2 and t['sess'][0]['q'] and len(t['sess'][1]['x']) > 0)
+    n_markov_cut = sum(1 for t in traces for x in t['sess'][:-1] if x['q'] and x['x'] and t['E'][x['x'][-1][0] - 1]['m']
+                       and x['x'][-1][0] < len(t['E']) and t['E'][x['x'][-1][0]]['m'] and t['E'][x['x'][-1][0]]['p'] == t['E'][x['x'][-1][0] - 1]['p'])
+    if not n_quit or not n_resumed or (pid == 'C15' and not n_markov_cut):
+        raise core.MachineryError('%s: the scripted quits no longer interrupt sessions (quit %d, resumed %d, cut inside a Markov level %d)'
+                                  % (pid, n_quit, n_resumed, n_markov_cut))
     rc, n_viol, n_known = verdict.finish()
     alltr = traces + otraces
     distinct = len({json.dumps({k: v for k, v in t.items() if k != 'tid'}, sort_keys=True) for t in alltr})
@@ -497,6 +505,7 @@ def main(pid, tier, seed):
            'samples': [{'meta': {k: v for k, v in meta[s['tid']].items() if k != 'ruleset'},
                         'sessions': [[p for p, g in x['x']] for x in s['sess']]}],
            'model_checking': mc, 'evaluations': len(alltr), 'distinct_nontrivial': distinct,
+           'anti_vacuity': {'histories_with_a_quit': n_quit, 'histories_resumed': n_resumed, 'quits_inside_a_markov_level': n_markov_cut},
            'rule': 'one trace = one history of real sessions on one ruleset: (C12) a gated two-thread session under one schedule and '
                    'keyboard script plus its resume, or one pcfg_guesser.py subprocess under one stdin condition; (C15) quit inside a Markov '
                    'level at position j followed by further quit/resume cycles, or one MarkovCracker save/load at cut j',
